@@ -285,7 +285,10 @@ fn run_socket(f: &[&str]) -> Result<(String, String), String> {
         ops.push(op_of(o)?);
     }
     let script = Script::parse(&list(f[12]), &list(f[13]), &list(f[14]))?;
+    #[cfg(tungstenite_verif)]
     tungstenite::protocol::frame::verif_set_mask_seed(seed);
+    #[cfg(not(tungstenite_verif))]
+    let _ = seed;
 
     let mut out = String::new();
     let created = catch_unwind(AssertUnwindSafe(|| {
@@ -454,6 +457,58 @@ fn run_mask(f: &[&str]) -> Result<String, String> {
     }
 }
 
+/// KS id role n : write n small binary messages on a fresh socket with an accepting transport and report statistics of
+/// the mask keys found on the wire (meaningful only in the build WITHOUT the deterministic-mask hook)
+fn run_key_stats(f: &[&str]) -> String {
+    let role = if f[2] == "s" { Role::Server } else { Role::Client };
+    let n: usize = f[3].parse().unwrap();
+    let script = Script::parse(&[], &[], &[]).unwrap();
+    let mut ws = WebSocket::from_raw_socket(script, role, None);
+    for i in 0..n {
+        if ws.send(Message::Binary(Bytes::from(vec![(i & 255) as u8, 7]))).is_err() {
+            return "error".into();
+        }
+    }
+    let wire = &ws.get_ref().accepted;
+    let mut keys: Vec<[u8; 4]> = vec![];
+    let mut i = 0;
+    let mut unmasked = 0usize;
+    while i + 2 <= wire.len() {
+        let masked = wire[i + 1] & 0x80 != 0;
+        let len = (wire[i + 1] & 0x7f) as usize;
+        if masked {
+            keys.push([wire[i + 2], wire[i + 3], wire[i + 4], wire[i + 5]]);
+            i += 6 + len;
+        } else {
+            unmasked += 1;
+            i += 2 + len;
+        }
+    }
+    let mut sorted = keys.clone();
+    sorted.sort();
+    sorted.dedup();
+    let mut per = [0usize; 4];
+    for (p, cnt) in per.iter_mut().enumerate() {
+        let mut seen = [false; 256];
+        for k in &keys {
+            seen[k[p] as usize] = true;
+        }
+        *cnt = seen.iter().filter(|x| **x).count();
+    }
+    format!(
+        "hook={} frames={} masked={} unmasked={} distinct={} bytevals={},{},{},{}",
+        cfg!(tungstenite_verif),
+        n,
+        keys.len(),
+        unmasked,
+        sorted.len(),
+        per[0],
+        per[1],
+        per[2],
+        per[3]
+    )
+}
+
 fn main() {
     std::panic::set_hook(Box::new(|_| {}));
     let args: Vec<String> = std::env::args().collect();
@@ -504,6 +559,8 @@ fn main() {
                 "FF" => (line.clone(), run_frame_format(&f).unwrap_or_else(|e| format!("bad-case:{e}"))),
                 "U8" => (line.clone(), run_utf8(&f)),
                 "MK" => (line.clone(), run_mask(&f).unwrap_or_else(|e| format!("bad-case:{e}"))),
+                "KS" => (line.clone(), run_key_stats(&f)),
+                "KR" => (line.clone(), hs::run_request_key_stats(&f)),
                 k => match hs::run(k, &f) {
                     Some((m, t)) => (m, t),
                     None => (line.clone(), "unknown-kind".into()),
